@@ -94,6 +94,11 @@ CHECKS = {
         "ref": "DESIGN.md section 3 C19", "note": _TB + " gama-g3 linearises once: agreement with the truth is required up to the second-order term of the approximate coordinates' error (stated in the evidence). Azimuths are refused by the g3 parser and are outside the model; deflections of the vertical are zero in the model.",
         "technique": "Coq proof (Coquelicot derivatives, trigonometric identities by nsatz) + row-by-row model/implementation correspondence in vm_compute + end-to-end predicted relations",
     },
+    "C11": {
+        "text": "Translator (tools/gkf_translate.py) regenerates the Gallina tables of GKFparser (states, tags, startElement / endElement / characterDataHandler transitions, tag()) from lib/gnu_gama/xml/gkfparser.{h,cpp} on every run. Coq theorems over the regenerated tables, for event sequences of any length (finite checks over all states x tags lifted by induction): the automaton is the stack machine of an element grammar -- it reaches state_stop on the events of a document exactly when the document belongs to the grammar; every document valid for the element structure of xml/gama-local.xsd is accepted; every tag-level refusal goes through error() and carries a line; the error state is absorbing; tag() recognises exactly the documented names; IsInteger accepts exactly the documented integer literals and IsFloat only documented floating literals. Correspondence K (ASan+UBSan, real GKFparser): every well-formed event sequence from model-accepted prefixes up to a bound extended by any event, rendered with valid attributes, plus random schema documents with perturbations -- verdict and error line against the regenerated model and the hand-written grammars evaluated inside coqc; every two-chunk split; the 8-bit encoding tables byte by byte; literal recognisers exhaustively. E: gama-local, gama-g3 and gama-local-deformation under ASan+UBSan on mutated inputs and option combinations",
+        "ref": "DESIGN.md section 3 C11", "note": _TB + " Trusted additionally: the translator (a mis-translation is caught by K, which compares the regenerated model with the running parser on every enumerated document). Memory safety and termination of the C++ are observed under sanitizers on generated inputs, not proved (partial): no Coq model can exhibit them. Attribute-level checks of the process_* handlers are covered by K/E only.",
+        "technique": "translator-regenerated Coq model + proof by finite check and induction + model/implementation correspondence in vm_compute + sanitizer runs of the executables",
+    },
     "C12": {
         "text": "Coq theorems: str2xml's output is decoded back to the input by standard XML entity decoding for every byte string (hence no raw < or &), and is injective; correspondence K: Strings.str2xml vs GNU_gama::str2xml exhaustively on short strings over an alphabet with all XML specials plus random hostile strings, compared inside coqc",
         "ref": "DESIGN.md section 3 C12",
